@@ -46,6 +46,7 @@ class C06(Prop):
     level_note = "gate-passing frames with a known model code but undecodable fields are outside the statement (C07 only judges their effect on later datagrams)"
     assumptions = ["events are attributed by sentinel bracketing on one socket (loopback UDP between one socket pair is ordered)",
                    "kernel datagram loss makes a batch inconclusive"]
+    warnings_as_errors = False   # unknown models are *reported by a warning*: under an error filter that is an exception by design
     anchors = ["aioswitcher.bridge:DatagramParser.is_switcher_originator", "aioswitcher.bridge:DatagramParser.get_device_type",
                "aioswitcher.bridge:_parse_device_from_datagram", "aioswitcher.bridge:UdpClientProtocol.datagram_received"]
     min_evaluations = {"quick": 5_000, "thorough": 150_000}
@@ -260,22 +261,20 @@ class C06(Prop):
             acc.ev()
             acc.count(f"class_{cls[0]}")
             acc.sig(env.sig(cls))
-            kinds = [k for k, _ in events]
-            if cls[0].startswith("nongenuine"):
-                if events:
-                    acc.violation(f"nongenuine-produced-{kinds[0]}", f"{cls}: a non-genuine datagram of {len(data)} bytes caused {events[:2]}",
-                                  {"class": list(cls), "datagram": data.hex()[:400], "events": [str(e)[:200] for e in events]})
-            else:
-                if "device" in kinds:
-                    acc.violation("unknown-model-delivered", f"model code {cls[2]:04x} in a {cls[1]}-byte frame produced a device",
-                                  {"code": f"{cls[2]:04x}", "len": cls[1], "datagram": data.hex()})
-                if "loop_exc" in kinds:
-                    exc = next(p for k, p in events if k == "loop_exc")
-                    acc.violation("unknown-model-raised", f"model code {cls[2]:04x} in a {cls[1]}-byte frame raised into the event loop: {exc}",
-                                  {"code": f"{cls[2]:04x}", "len": cls[1], "datagram": data.hex(), "exc": exc})
-                if not any(k == "warning" and "unknown" in p.lower() for k, p in events):
-                    acc.violation("unknown-model-no-warning", f"model code {cls[2]:04x} in a {cls[1]}-byte frame produced no 'unknown device' warning; events {events[:2]}",
-                                  {"code": f"{cls[2]:04x}", "len": cls[1], "datagram": data.hex()})
+            self._judge(acc, data, cls, events)
+        # the same datagrams handed to the listening endpoint's protocol object in a mutable buffer (what an event loop that
+        # reuses its receive buffer does): same verdicts
+        proto = getattr(self.bridge._transports.get(self.port), "_protocol", None)
+        if proto is not None:
+            for data, cls in judged[:: max(1, len(judged) // 5)]:
+                log.clear()
+                acc.ev()
+                acc.count("datagrams_handed_over_as_bytearray")
+                try:
+                    proto.datagram_received(bytearray(data), ("127.0.0.1", 40000))
+                except Exception as exc:          # in a running loop this is what the loop's exception handler would be given
+                    log.events.append(("loop_exc", f"{type(exc).__name__}:{exc}"))
+                self._judge(acc, data, cls, [e for e in log.events if not (e[0] == "device" and udp.is_sentinel(e[1]))], ":mutable-buffer")
         if judged and len(acc.samples) < 4 and case["items"][0][0] != "len":
             data, cls = judged[0]
             acc.sample({"class": list(cls), "datagram": data.hex()[:160] + "...", "events_attributed": [str(e)[:100] for e in slots[0]]})
@@ -283,6 +282,25 @@ class C06(Prop):
             data, cls = judged[0]
             acc.sample({"class": list(cls), "datagram_len": len(data), "events_attributed": [str(e)[:100] for e in slots[0]]})
 
+
+    def _judge(self, acc, data, cls, events, how=""):
+        if True:
+            kinds = [k for k, _ in events]
+            if cls[0].startswith("nongenuine"):
+                if events:
+                    acc.violation(f"nongenuine-produced-{kinds[0]}{how}", f"{cls}: a non-genuine datagram of {len(data)} bytes caused {events[:2]}",
+                                  {"class": list(cls), "datagram": data.hex()[:400], "events": [str(e)[:200] for e in events]})
+            else:
+                if "device" in kinds:
+                    acc.violation("unknown-model-delivered" + how, f"model code {cls[2]:04x} in a {cls[1]}-byte frame produced a device",
+                                  {"code": f"{cls[2]:04x}", "len": cls[1], "datagram": data.hex()})
+                if "loop_exc" in kinds:
+                    exc = next(p for k, p in events if k == "loop_exc")
+                    acc.violation("unknown-model-raised" + how, f"model code {cls[2]:04x} in a {cls[1]}-byte frame raised into the event loop: {exc}",
+                                  {"code": f"{cls[2]:04x}", "len": cls[1], "datagram": data.hex(), "exc": exc})
+                if not any(k == "warning" and "unknown" in p.lower() for k, p in events):
+                    acc.violation("unknown-model-no-warning" + how, f"model code {cls[2]:04x} in a {cls[1]}-byte frame produced no 'unknown device' warning; events {events[:2]}",
+                                  {"code": f"{cls[2]:04x}", "len": cls[1], "datagram": data.hex()})
 
     def finish(self, acc, ctx):
         acc.count("tcp_client_cycles_in_the_same_loop", self.churn_ops)
